@@ -8,6 +8,8 @@ package server
 
 import (
 	"fmt"
+	"runtime/debug"
+	"os"
 	"sort"
 	"strings"
 	"testing"
@@ -28,9 +30,12 @@ type vfCoreResult struct {
 }
 
 // vfRunCoreScript runs one PRNG script of the core subset.
-func vfRunCoreScript(env *vfEnv, prop string, caseNo int, prof *vfProfile, value bool) *vfCoreResult {
+func vfRunCoreScript(env *vfEnv, prop string, caseNo int, prof *vfProfile, value bool, ack bool) *vfCoreResult {
 	rng := vfCaseRand(env.Seed, prop, caseNo)
-	dir := vfScratchDir(env, "e1")
+	// a directory of its own per script: the goroutines of an instance that was
+	// abandoned after a panic must not be able to touch a later script's files
+	dir := vfScratchDir(env, fmt.Sprintf("e1-%d", caseNo))
+	defer os.RemoveAll(dir)
 	cfg := vfInstCfg{Dir: dir, Manual: true, NDb: prof.NDbs + 1}
 	cfg.DBConcurrent = uint([]int{1, 2, 2, 4}[rng.Intn(4)])
 	cfg.FastKeys = uint([]int{1, 4, 4, 64}[rng.Intn(4)])
@@ -48,6 +53,18 @@ func vfRunCoreScript(env *vfEnv, prop string, caseNo int, prof *vfProfile, value
 	if value {
 		vfAttachValueOracle(sh)
 	}
+	if ack {
+		eng.ackMode = true
+		eng.lock() // the main goroutine owns the engine except while it waits in quiesce()
+		defer eng.unlock()
+		sh.onAckGrant = func(kid vfKeyId, k *vfKeyState, r *vfReq, ev *vfEvent) {
+			ok, n := vfAofHasAckLock(dir, kid.Db, vfKeyBytes(kid.Db, kid.Key), vfLockIdBytes(ev.LockId))
+			sh.stats["ack_log_checked"]++
+			if !ok {
+				sh.report("C11", "succed-before-log", "", "require-ack request %d was reported SUCCED but the leader's log files (%d records) contain no LOCK record with the require-ack flag for db%d/k%d L%d", r.ID, n, kid.Db, kid.Key, ev.LockId)
+			}
+		}
+	}
 	eng.injectPct = prof.InjectPct
 	eng.injectUnset = prof.InjectUnsettled
 	if prof.InjectPct > 0 {
@@ -62,6 +79,40 @@ func vfRunCoreScript(env *vfEnv, prop string, caseNo int, prof *vfProfile, value
 				}
 			}
 			e.submit(op)
+		}
+	}
+	defer func() {
+		if r := recover(); r != nil {
+			// keep the script that led to the panic, then let the guard classify it
+			in.abandoned = true
+			vfWriteReplay(env, fmt.Sprintf("panic-case%d.json", caseNo), eng.scriptDoc(caseNo, env.Seed, map[string]interface{}{"panic": fmt.Sprint(r), "property": prop}))
+			if sh.faultSig != "" {
+				panic(vfTaggedPanic{Sig: sh.faultSig, Val: r, Stack: string(debug.Stack())})
+			}
+			panic(r)
+		}
+	}()
+	if tr := os.Getenv("VERIF_TRACE"); tr != "" {
+		// debugging aid for replays: print the records of the server at every hook
+		prev := eng.onHook
+		eng.onHook = func(point int) {
+			if prev != nil {
+				prev(point)
+			}
+			if point >= VP_AOF_FLUSH_MID {
+				return
+			}
+			fmt.Printf("TRACE hook %s goid=%d ops=%d events=%d\n", vfPointNames[point], vfGoid(), len(eng.opLog), len(eng.events))
+			vfCensusVerbose = true
+			for _, db := range in.dbs {
+				c := vfTakeCensus(db)
+				for _, e := range c.Errors {
+					if strings.Contains(e, tr) || tr == "all" {
+						fmt.Printf("TRACE   db%d %s\n", db.dbId, e)
+					}
+				}
+			}
+			vfCensusVerbose = false
 		}
 	}
 	steps := rng.Range(prof.Steps[0], prof.Steps[1])
@@ -126,11 +177,32 @@ func vfRunCoreScript(env *vfEnv, prop string, caseNo int, prof *vfProfile, value
 		}
 		sh.stats["scripts_long_queue"]++
 	}
+	aofBroken := false
+	failScript := rng.Chance(10) // log-write failures are injected in a tenth of the scripts
 	for i := 0; i < steps; i++ {
+		if prof.AofFailPct > 0 && failScript && rng.Chance(prof.AofFailPct) {
+			if !aofBroken {
+				eng.handover(in.breakAof)
+				eng.opLog = append(eng.opLog, vfOp{Kind: "tick", Ticks: 0, At: "LOG-WRITE-BROKEN"})
+				if sh.faultSig == "" {
+					sh.faultSig = "after-log-write-failure"
+					vfNoteFaultSig(sh.faultSig)
+				}
+				sh.stats["aof_broken"]++
+			} else {
+				eng.handover(in.healAof)
+				eng.opLog = append(eng.opLog, vfOp{Kind: "tick", Ticks: 0, At: "LOG-WRITE-HEALED"})
+				sh.stats["aof_healed"]++
+			}
+			aofBroken = !aofBroken
+		}
 		runTop(gen.next())
 		if len(sh.findings) > 40 {
 			break
 		}
+	}
+	if aofBroken {
+		eng.handover(in.healAof)
 	}
 	// ---- drain phase (no injection)
 	eng.injector = nil
@@ -143,7 +215,7 @@ func vfRunCoreScript(env *vfEnv, prop string, caseNo int, prof *vfProfile, value
 	vfFinalCensus(eng, sh)
 	for _, l := range vfLogCapture.Take() {
 		sh.stats["server_error_log_lines"]++
-		if !strings.Contains(l, "push aof error") {
+		if !strings.Contains(l, "push aof error") && !(prof.AofFailPct > 0 && (strings.Contains(l, "Aof flush file error") || strings.Contains(l, "Aof append file write error") || strings.Contains(l, "Aof close file") || strings.Contains(l, "Aof Sync file error"))) {
 			sh.report("C17", "server-error-log", "", "the server logged an internal inconsistency: %s", l)
 		}
 	}
@@ -210,7 +282,7 @@ func vfDrain(eng *vfEngine, sh *vfShadow, rng *vfRand) {
 			for guard := 0; guard < 2000 && len(k.Holds) > 0; guard++ {
 				h := k.Holds[0]
 				if h.AckPending {
-					_ = eng.in.slock.GetAof().WaitFlushAofChannel()
+					eng.settle()
 					if h.AckPending {
 						break
 					}
@@ -236,7 +308,7 @@ func vfDrain(eng *vfEngine, sh *vfShadow, rng *vfRand) {
 
 // vfFinalCensus: after the drain everything must be reclaimed (C17).
 func vfFinalCensus(eng *vfEngine, sh *vfShadow) {
-	_ = eng.in.slock.GetAof().WaitFlushAofChannel()
+	eng.settle()
 	for d, db := range eng.in.dbs {
 		c := vfTakeCensus(db)
 		for _, e := range c.Errors {
@@ -268,6 +340,8 @@ type vfCoreProp struct {
 	Floors    []string
 	Assumptions []string
 	Value     bool // attach the value oracle
+	Ack       bool // require-ack mode: wait for the AOF channels after every operation, log check
+	Adopt     func(f *vfFinding) bool // findings of other properties' oracles that this property's statement also covers
 }
 
 // property-specific files register further core-engine properties here
@@ -355,11 +429,12 @@ func vfCoreProps() map[string]*vfCoreProp {
 
 func vfRunCoreCheck(t *testing.T, prop string) {
 	start := time.Now()
+	vfContinueAfterPanic = true
 	env := vfGetEnv(prop)
 	cp := vfCoreProps()[prop]
 	n := env.N(cp.Quick, cp.Thorough)
 	runCase := func(part *vfPart, i int) {
-		res := vfRunCoreScript(env, prop, i, &cp.Profile, cp.Value)
+		res := vfRunCoreScript(env, prop, i, &cp.Profile, cp.Value, cp.Ack)
 		for k, v := range res.Stats {
 			if strings.HasPrefix(k, "max_") {
 				part.Max(k, v)
@@ -387,8 +462,11 @@ func vfRunCoreCheck(t *testing.T, prop string) {
 		wrote := ""
 		for _, f := range res.Findings {
 			if f.Prop != prop {
-				part.Add("other_property_findings_"+f.Prop+"_"+f.Clause, 1)
-				continue
+				if cp.Adopt == nil || !cp.Adopt(&f) {
+					part.Add("other_property_findings_"+f.Prop+"_"+f.Clause, 1)
+					continue
+				}
+				f.Clause = f.Prop + "/" + f.Clause
 			}
 			if wrote == "" {
 				wrote = vfWriteReplay(env, fmt.Sprintf("case%d.json", i), res.Doc)
